@@ -386,7 +386,9 @@ inductive Op
   | sendV2 (c : Nat) (signer : Str) (client : Str) (data : PacketData) (coreErr : Option String) (seq : Nat)
   | recv (p : Packet)
   | ack (p : Packet) (a : Ack)
-  | timeout (p : Packet)
+  /-- `OnTimeoutPacket`, reached by `MsgTimeout` (`onClose = false`) or, on v1 channels, by
+      `MsgTimeoutOnClose` (`onClose = true`): the same ICS-20 callback -/
+  | timeout (p : Packet) (onClose : Bool)
   | setParams (c : Nat) (send recv : Bool)
   /-- a plain bank `MsgSend` signed by `frm` -/
   | bankSend (c : Nat) (frm to : Addr) (denom : Str) (amt : Nat)
@@ -428,7 +430,7 @@ def step (cfg : Config) (w : World) : Op → World × Res
     match ackPacket cfg p.srcChain (w.chains p.srcChain) p a with
     | .ok ch' => ({ w.setChain p.srcChain ch' with acked := p :: w.acked }, .ok)
     | .error f => (w, failRes f)
-  | .timeout p =>
+  | .timeout p _ =>
     match timeoutPacket cfg p.srcChain (w.chains p.srcChain) p with
     | .ok ch' => ({ w.setChain p.srcChain ch' with timedOut := p :: w.timedOut }, .ok)
     | .error f => (w, failRes f)
